@@ -589,3 +589,65 @@ class Gen(object):
         elif r.random() < 0.2:
             attempt = r.choice([1, 2, 7])
         return extra, attempt
+
+
+# ------------------------------------------------------------------------------------------------
+# grouped ListGraders with per-box distinguishable answers and messages ("tagged" stream)
+# ------------------------------------------------------------------------------------------------
+TAG = 'matched '
+
+
+def surjective_layouts(n, g):
+    """every grouping list of length n that uses exactly the group numbers 1..g (any layout order)"""
+    import itertools
+    return [list(t) for t in itertools.product(range(1, g + 1), repeat=n) if set(t) == set(range(1, g + 1))]
+
+
+def grouping_layouts(rng, tier):
+    """all valid grouping shapes for up to 4 inputs, a seeded sample of the 5- and 6-input ones"""
+    out = []
+    for n in (2, 3, 4):
+        for g in range(2, n + 1):
+            out += surjective_layouts(n, g)
+    big = []
+    for n, g in ((5, 2), (5, 3), (6, 2), (6, 3)):
+        big += surjective_layouts(n, g)
+    rng.shuffle(big)
+    out += big[:(40 if tier == 'quick' else 400)]
+    return out
+
+
+def tagged_group_spec(rng, layout):
+    """a ListGrader for this grouping whose every box has its own answer text and its own message.
+    Returns (spec, correct inputs)."""
+    g = max(layout)
+    idxs = {k: [i for i, x in enumerate(layout) if x == k] for k in range(1, g + 1)}
+    sizes = [len(idxs[k]) for k in range(1, g + 1)]
+
+    def leaf_answer(k, q):
+        v = 'g%dq%d' % (k, q)
+        d = {'expect': v, 'msg': TAG + v}
+        if rng.random() < 0.25:
+            d['grade_decimal'] = rng.choice([0.5, 0.25])
+        return d, v
+    string = {'g': {'cls': 'StringGrader', 'opts': {}}}
+    equal = len(set(sizes)) == 1 and sizes[0] >= 2
+    unordered = equal and rng.random() < 0.5
+    answers, correct = [], [None] * len(layout)
+    for k in range(1, g + 1):
+        items = [leaf_answer(k, q) for q in range(sizes[k - 1])]
+        for i, (_, v) in zip(idxs[k], items):
+            correct[i] = v
+        answers.append(items[0][0] if sizes[k - 1] == 1 else [a for a, _ in items])
+    o = {'grouping': list(layout), 'ordered': not unordered, 'answers': answers}
+
+    def inner():
+        io = {'subgraders': string, 'ordered': rng.random() < 0.5}
+        return {'g': {'cls': 'ListGrader', 'opts': io}}
+    if unordered or (min(sizes) >= 2 and rng.random() < 0.4):
+        o['subgraders'] = inner()
+    else:
+        o['subgraders'] = [string if sz == 1 else inner() for sz in sizes]
+    if rng.random() < 0.2:
+        o['partial_credit'] = False
+    return {'cls': 'ListGrader', 'opts': o}, correct
